@@ -193,7 +193,7 @@ def loadInnerAbs (c : RCfg) (st : LoadSt) : List Inner → Except Err LoadSt
   | .err e :: cs =>
     if !st.this then loadInnerAbs c { st with errors := st.errors ++ [e.value] } cs else .error .unexpected
   | .count s _ :: cs =>
-    if !st.this then (match parseUsize s with
+    if !st.this then (match parseUsize (c.tok s) with
       | some n => loadInnerAbs c { st with count := some n } cs
       | none => .error .other)
     else .error .unexpected
